@@ -765,14 +765,14 @@ Proof.
     rewrite R1, (R4 eq_refl), R2. cbn [is_file_exists is_not_exist negb andb orb].
     destruct (get (f_heap s) n) as [[ch m|dt k i m|t m]|] eqn:Hg; [| |exfalso; exact (Hns t m eq_refl)|congruence].
     + unfold check_permission. rewrite (sh_admin _ _ H), (admin_kperm s sv n _ H) by congruence. cbn [negb andb].
-      unfold f_read_dir, new_handle. cbn [hd_name hd_node hd_dir_infos]. unfold abs_path at 1. cbv iota. rewrite Hg.
-      change (Z.leb (-1) 0) with true. cbn [orb andb fst snd proj_res]. rewrite ?Hg. right. eexists _, _. split; [reflexivity|]. split; [reflexivity|].
+      unfold f_read_dir, dir_read, new_handle. cbn [hd_name hd_node hd_dir_infos]. unfold abs_path at 1. cbv iota. rewrite Hg.
+      rewrite dir_batch_all by reflexivity. cbn [orb andb fst snd proj_res]. rewrite ?Hg. right. eexists _, _. split; [reflexivity|]. split; [reflexivity|].
       apply dir_infos_sim. intros n' c' Hin. unfold get. apply nth_error_Some.
       apply (Hpv n n' c'). unfold children. rewrite Hg. exact Hin.
     + unfold check_permission. rewrite (sh_admin _ _ H), (admin_kperm s sv n _ H) by congruence. cbn [negb andb orb].
       assert (Hg' : get (upd (f_heap s) n (NFile dt k i m)) n = Some (NFile dt k i m))
         by (apply wget_upd_same; exact (wget_lt _ _ _ Hg)).
-      unfold f_read_dir, new_handle. cbn [hd_name hd_node with_heap f_heap]. unfold abs_path at 1. cbv iota.
+      unfold f_read_dir, dir_read, new_handle. cbn [hd_name hd_node with_heap f_heap]. unfold abs_path at 1. cbv iota.
       rewrite Hg'. cbn [fst snd]. rewrite Hg. left. left. reflexivity.
   - destruct R as (R1 & R2 & R3 & R4). destruct (at_name_views _ _ _ _ _ _ (R4 eq_refl)) as (_ & V2 & _).
     rewrite R1, V2. left. left. reflexivity.
